@@ -492,6 +492,20 @@ class Gen(object):
         return self.send_case(B, log, nxt, snap, budget, drop, commit=r.randint(first, last))
 
     # ---------------------------------------------------------------- sendall
+    def sys_sendall(self):
+        cases = []
+        log = self.log(1, [1, 30, 100, 7, 250])
+        for (members, ro, conn, nx, budget) in (
+                ([1, 2], [], [1, 2], [[1, 2], [2, 6]], None),
+                ([1, 2], [5], [1, 5], [[1, 3], [2, 2], [5, 7]], None),
+                ([1, 2, 3], [], [1, 2, 3], [[1, 2], [2, 4], [3, 6]], 2),
+                ([1, 2], [], [1, 2], [[1, 2]], None),            # KeyError: no nextIndex for a connected member
+                ([], [], [], [], None)):
+            st = blank_state(role=2, leader=0, term=2, log=log, commit=1, members=members, readonly=ro, connected=conn,
+                             next=nx, match=[[d, 0] for d, _ in nx], noop=5)
+            cases.append({"op": "sendall", "conf": conf(batch=100), "state": st, "budget": budget})
+        return cases
+
     def rnd_sendall(self):
         r = self.rng
         B = r.choice([5, 50, 100, 1000])
@@ -919,11 +933,12 @@ def load_corpus(ctx):
 def build_cases(env, gen, ctx):
     n_rnd = ctx.scale(1800, 60000)
     cases = []
-    cases += gen.sys_send(ctx.scale(8, 1))
+    cases += gen.sys_sendall()
     cases += gen.sys_check()
     cases += gen.sys_small()
     cases += gen.sys_fappend()
     cases += gen.sys_member_misc()
+    cases += gen.sys_send(ctx.scale(8, 1))
     for i in range(n_rnd):
         x = i % 10
         if x < 4:
